@@ -46,6 +46,8 @@ class Cfg:
     min_plain_cols: int = 1
     force_str_first_plain: bool = False
     text_lines: int = 3
+    group_by_p: int = 3                   # out of 10
+    noncontig: float = 0.0                # probability that group_by keys are made non-contiguous
 
 
 def _txt(cfg: Cfg, max_size=8):
@@ -315,7 +317,7 @@ def table_section(draw, cfg: Cfg, sec_index=0, multi=False):
             subline_by = avail[:1]
             avail = avail[1:]
             budget -= 1
-        if cfg.allow_group_by and budget > 0 and draw(st.integers(0, 9)) < 3:
+        if cfg.allow_group_by and budget > 0 and draw(st.integers(0, 9)) < cfg.group_by_p:
             k = draw(st.integers(1, min(2, budget)))
             group_by = avail[:k]
             avail = avail[k:]
@@ -340,6 +342,12 @@ def table_section(draw, cfg: Cfg, sec_index=0, multi=False):
         for lvl, j in enumerate(group_by):
             cols[j] = {"name": names[j], "dtype": "str", "values": gc[lvl]}
         body["group_by"] = [names[j] for j in group_by]
+        if cfg.noncontig and n >= 3 and draw(st.integers(0, 99)) < cfg.noncontig * 100:
+            a = draw(st.integers(0, n - 1))
+            b = draw(st.integers(0, n - 1))
+            for lvl, j in enumerate(group_by):
+                v = cols[j]["values"]
+                v[a], v[b] = v[b], v[a]
     first_plain = True
     for j in range(ncol):
         if cols[j] is None:
@@ -425,8 +433,9 @@ def _be(n, size):
 
 @st.composite
 def png_bytes(draw, w=None, h=None):
-    w = w if w is not None else draw(st.one_of(st.integers(1, 4000), st.integers(0, 2**32 - 1)))
-    h = h if h is not None else draw(st.one_of(st.integers(1, 4000), st.integers(0, 2**32 - 1)))
+    # PNG spec: width/height are four-byte integers limited to 1 .. 2^31-1
+    w = w if w is not None else draw(st.one_of(st.integers(1, 4000), st.integers(1, 2**31 - 1)))
+    h = h if h is not None else draw(st.one_of(st.integers(1, 4000), st.integers(1, 2**31 - 1)))
     ihdr = b"IHDR" + _be(w, 4) + _be(h, 4) + bytes([8, 2, 0, 0, 0])
     body = b"\x89PNG\r\n\x1a\n" + _be(13, 4) + ihdr + b"\x00\x00\x00\x00"
     tail = draw(st.binary(max_size=300))
@@ -435,8 +444,8 @@ def png_bytes(draw, w=None, h=None):
 
 @st.composite
 def jpeg_bytes(draw):
-    w = draw(st.integers(0, 65535))
-    h = draw(st.integers(0, 65535))
+    w = draw(st.integers(1, 65535))
+    h = draw(st.integers(1, 65535))
     out = bytearray(b"\xff\xd8")
     for _ in range(draw(st.integers(0, 3))):
         marker = draw(st.sampled_from([0xE0, 0xE1, 0xFE, 0xDB, 0xC4]))
